@@ -6,22 +6,35 @@ FUNCTIONS = ["GC_Set", "GC_Set_Ptr", "GC_Mem_Ptr", "GC_Rem", "GC_Rem_Ptr", "GC_S
 ASSUMPTIONS = []
 EXPLANATION = "inductive steps of the collector's registry operations from an arbitrary valid registry with an uninterpreted address hash"
 RC = ["GC_Hash:verif_gc_hash", "GC_Rehash:verif_gc_rehash_stub"]
-def G(name, op, ns, tiers, extra=(), rc=RC, nc=4, **kw):
-    us = ["GC_Sweep.%d:%d" % (i_, 2 * ns + 4) for i_ in range(6)] + ["Type_Scan.0:24", "Type_Scan.1:24", "strcmp.0:24", "cell_index.0:%d" % (nc + 2), "GC_Ideal_Size.0:26", "verif_memset_w.0:6", "verif_memcpy_w.0:6"]
+def G(name, op, ns, tiers, extra=(), rc=RC, nc=4, extra_unwind=(), **kw):
+    us = ["GC_Sweep.%d:%d" % (i_, 2 * ns + 4) for i_ in range(6)] + ["Type_Scan.0:24", "Type_Scan.1:24", "strcmp.0:24", "cell_index.0:%d" % (nc + 2), "GC_Ideal_Size.0:26", "verif_memset_w.0:30", "verif_memcpy_w.0:6"]
     for f, k in [("GC_Set_Ptr", 1), ("GC_Mem_Ptr", 1), ("GC_Rem_Ptr", 3), ("GC_Mark_Item", 1), ("GC_Sweep", 0), ("GC_Mark", 1), ("GC_Mark_Stack", 2), ("GC_Recurse", 1)]:
         for i in range(k):
             us.append("%s.%d:%d" % (f, i, ns + 3))
+    us += list(extra_unwind)
     return Ob("gc.%s.ns%d" % (name, ns), "C17/gc_step.c", defs=["NS=%d" % ns, "NC=%d" % nc, "OP=%s" % op, "CELLO_VERIF"] + list(extra), replace=["GC.c"],
-              unwind=max(ns, nc) + 3, unwindset=us, checks=["bounds", "pointer", "div0"], tiers=tiers, replace_calls=rc, mem_gb=8,
+              unwind=max(ns, nc) + 3, unwindset=us, checks=["bounds", "pointer", "div0"], tiers=tiers, replace_calls=rc, mem_gb=kw.pop("mem_gb", 8),
               desc="collector %s from an arbitrary valid %d-slot registry, %d managed cells" % (name, ns, nc), **kw)
-P = ("probe",)
+Q = ("quick", "thorough")
+T = ("thorough",)
+MS = ["GC_Mark:verif_mark_stub", "GC_Sweep:verif_sweep_stub"]
 OBLIGATIONS = (
-    [G("hash", "OP_HASH", 5, P, rc=[], timeout=300)]
-    + [G("set.home%d" % h, "OP_SET", 5, P, ["HOME=%d" % h], rc=RC + ["GC_Mark:verif_mark_stub", "GC_Sweep:verif_sweep_stub"], timeout=600) for h in range(5)]
-    + [G("mem.home%d" % h, "OP_MEM", 5, P, ["HOME=%d" % h], timeout=600) for h in range(5)]
-    + [G("rem.home%d" % h, "OP_REM", 5, P, ["HOME=%d" % h, "NO_OWNERSHIP"], timeout=600) for h in range(5)]
-    + [G("sweep.noown", "OP_SWEEP", 5, P, ["NO_OWNERSHIP"], timeout=900), G("sweep.own", "OP_SWEEP", 5, P, timeout=900)]
-    + [G("mark", "OP_MARK", 5, P, nc=3, timeout=900)]
+    [G("hash", "OP_HASH", 5, Q, rc=[])]
+    + [G("set.home%d" % h, "OP_SET", 5, Q, ["HOME=%d" % h], rc=RC + MS) for h in range(5)]
+    + [G("mem.home%d" % h, "OP_MEM", 5, Q, ["HOME=%d" % h]) for h in range(5)]
+    + [G("rem.home%d" % h, "OP_REM", 5, Q, ["HOME=%d" % h, "NO_OWNERSHIP"]) for h in range(5)]
+    + [G("sweep.noown.nc3", "OP_SWEEP", 5, Q, ["NO_OWNERSHIP"], nc=3, timeout=1800),
+       G("mark_item", "OP_MARK_ITEM", 5, Q, rc=RC + ["GC_Recurse:verif_recurse_stub"]),
+       G("recurse", "OP_RECURSE", 5, Q, rc=RC + ["GC_Mark_Item:verif_item_stub"]),
+       G("mark_top", "OP_MARK_TOP", 5, Q, rc=RC + ["GC_Mark_Item:verif_item_stub", "GC_Recurse:verif_recurse_stub"])]
+    # thorough: 4 cells in the sweep, 11-slot registry for set/mem/rem
+    + [G("sweep.noown.nc4", "OP_SWEEP", 5, T, ["NO_OWNERSHIP"], nc=4, timeout=3600, mem_gb=16)]
+    + [G("set.home%d" % h, "OP_SET", 11, T, ["HOME=%d" % h], rc=RC + MS, nc=6, timeout=3600, mem_gb=16) for h in range(11)]
+    + [G("mem.home%d" % h, "OP_MEM", 11, T, ["HOME=%d" % h], nc=6, timeout=3600, mem_gb=16) for h in range(11)]
+    + [G("rem.home%d" % h, "OP_REM", 11, T, ["HOME=%d" % h, "NO_OWNERSHIP"], nc=6, timeout=3600, mem_gb=16) for h in range(11)]
 )
-LEVEL_TEXT = "x"
-LEVEL_NOTE = "x"
+LEVEL_TEXT = ("Bounded model checking of the real GC.c registry: set / mem / rem / sweep as inductive steps from an ARBITRARY valid registry (occupancy, probe layout, root flags, "
+              "marks) with the address hash uninterpreted (any collision pattern), one obligation per home slot; the mark phase decomposed into GC_Mark / GC_Mark_Item / GC_Recurse "
+              "contracts. 5-slot registry quick, 11-slot thorough.")
+LEVEL_NOTE = ("Trusted: cbmc; GC_Hash and GC_Rehash (and GC_Mark/GC_Sweep inside GC_Set) are replaced by recorders inside the steps and discharged separately; destruct/dealloc are a ledger; "
+              "the machine stack is a harness array supplied through the CELLO_VERIF hook; thread-local storage marking is not in this harness.")
